@@ -362,11 +362,24 @@ func c17ResOne(m *revision.PackageDependencyManager, st *Store, s c17ResScn, con
 		if s.Fault == nil && wf && obs.Err != "initDag" && has(obs.Lock, func(p c17Pkg) bool { return p.Name == s.Self.Name && !p.Typed && p.Source != s.Self.Source }) {
 			mons = append(mons, Mon{Sig: "C17:moved-revision-stale-entry-kept", Why: "after Resolve the Lock still holds an entry " + s.Self.Name + " under a source other than " + s.Self.Source})
 		}
+		// the entry this Resolve records for the revision carries every declared dependency with
+		// its own constraint, in the declared order (duplicates included): the lock reconciler and
+		// every later Resolve judge the constraints recorded here, not the package's meta
+		if !has(s.Lock, func(p c17Pkg) bool { return p.Name == s.Self.Name }) {
+			for _, p := range obs.Lock {
+				if p.Name == s.Self.Name && p.Source == s.Self.Source && !c17EqualJSON(c17DepsOrEmpty(p.Deps), c17DepsOrEmpty(s.Self.Deps)) {
+					mons = append(mons, Mon{Sig: "C17:recorded-entry-differs-from-declared-dependencies", Why: fmt.Sprintf("declared %v, recorded %v", s.Self.Deps, p.Deps)})
+				}
+			}
+		}
 		if s.Fault == nil && obs.Err != "initDag" && !has(obs.Lock, func(p c17Pkg) bool { return p.Name == s.Self.Name }) {
 			mons = append(mons, Mon{Sig: "C17:resolve-not-recorded", Why: "no entry named " + s.Self.Name + " in the Lock after Resolve returned " + obs.Err})
 		}
 	}
 	cls := "err=" + obs.Err
+	if c17HasDupDeps(s.Self.Deps) {
+		cls = "dupdep/" + cls
+	}
 	if !wf {
 		cls = "nonwf/" + cls
 	}
@@ -374,6 +387,25 @@ func c17ResOne(m *revision.PackageDependencyManager, st *Store, s c17ResScn, con
 		cls = "writers=" + *consumed + "/" + cls
 	}
 	return obs, mons, cls
+}
+
+// c17HasDupDeps: is a package declared more than once?
+func c17HasDupDeps(d []c17Dep) bool {
+	seen := map[string]bool{}
+	for _, x := range d {
+		if seen[x.Pkg] {
+			return true
+		}
+		seen[x.Pkg] = true
+	}
+	return false
+}
+
+func c17DepsOrEmpty(d []c17Dep) []c17Dep {
+	if d == nil {
+		return []c17Dep{}
+	}
+	return d
 }
 
 // c17LockWF is LockWF of the model.
@@ -691,6 +723,35 @@ func c17ResolveRandom(c *Ctx) {
 			}
 		}
 	}
+	// the same package declared twice with different constraints (dependsOn is a list, nothing
+	// forbids it; every entry is a constraint of its own that has to be checked and recorded):
+	// the second one easy, unparsable, a digest, or one the installed version violates
+	if len(s.Self.Deps) > 0 && r.Chance(1, 5) {
+		i := r.Intn(len(s.Self.Deps))
+		d := s.Self.Deps[i]
+		switch r.Intn(6) {
+		case 0:
+			d.Con = c17GenEasyConstraint(r)
+		case 1:
+			d.Con = c17GenConstraint(r)
+		case 2:
+			d.Con = Pick(r, []string{c17DigestA, c17DigestB, "latest"})
+		default:
+			d.Con = Pick(r, []string{">99.0.0", "<0.0.1-0", "9.9.9", ">=7.0.0, <8.0.0"})
+		}
+		at := r.Range(0, len(s.Self.Deps))
+		deps := append([]c17Dep{}, s.Self.Deps[:at]...)
+		deps = append(deps, d)
+		deps = append(deps, s.Self.Deps[at:]...)
+		if inLockAlready { // the recorded entry was written from the same meta
+			for j := range s.Lock {
+				if s.Lock[j].Name == s.Self.Name && s.Lock[j].Source == s.Self.Source {
+					s.Lock[j].Deps = append([]c17Dep{}, deps...)
+				}
+			}
+		}
+		s.Self.Deps = deps
+	}
 	if r.Chance(1, 30) && len(s.Lock) > 0 { // deprecated type field on some entry
 		s.Lock[r.Intn(len(s.Lock))].Typed = true
 	}
@@ -951,6 +1012,58 @@ func c17RecRun(s c17RecScn) (c17RecObs, []Mon, string) {
 		}
 		um, _ := c17UpdMonitor(parents, insVer, s.Down, allTags, ver, "")
 		mons = append(mons, um...)
+		// A parent that lists the package more than once: AddNeighbors hands the DAG node the
+		// constraint of the FIRST entry only (once per entry), while isValidConstraints judges
+		// every entry by its own constraint. A violated LATER entry therefore makes the package
+		// "implied" (to be upgraded) but takes no part in the selection: the version written
+		// violates a declared constraint although a tag admitted by every entry exists.
+		var later []string
+		seenSrc = map[string]bool{}
+		for _, p := range s.Lock {
+			if seenSrc[p.Source] {
+				continue
+			}
+			seenSrc[p.Source] = true
+			first := true
+			for _, d := range p.Deps {
+				if d.Pkg != src {
+					continue
+				}
+				if !first {
+					later = append(later, d.Con)
+				}
+				first = false
+			}
+		}
+		if v, verr := semver.NewVersion(ver); verr == nil && len(later) > 0 {
+			cur, curErr := semver.NewVersion(insVer)
+			var cons []*semver.Constraints
+			okCons := curErr == nil
+			for _, c := range append(append([]string{}, parents...), later...) {
+				con, cerr := semver.NewConstraint(c)
+				okCons = okCons && cerr == nil
+				cons = append(cons, con)
+			}
+			if okCons {
+				all := func(x *semver.Version) bool {
+					for _, con := range cons {
+						if !con.Check(x) {
+							return false
+						}
+					}
+					return true
+				}
+				better := ""
+				for _, t := range allTags {
+					if x, e := semver.NewVersion(t); e == nil && all(x) && (x.Compare(cur) >= 0 || s.Down) {
+						better = t
+					}
+				}
+				if !all(v) && better != "" {
+					mons = append(mons, Mon{Sig: "C17:update-ignores-later-duplicate-constraint", Why: fmt.Sprintf("%s moved from %s to %s: violates one of the later duplicate entries %v (first entries %v) although tag %s is admitted by every entry", src, insVer, ver, later, parents, better)})
+				}
+			}
+		}
 	}
 	if obs.Act == "create" {
 		// the created version must satisfy the constraint of some edge towards that package
@@ -1033,6 +1146,10 @@ func c17GenRegistryTags(r *Rng, max int) []string {
 // c17ReconcileSharedDep: upgrades enabled, an installed dependency shared by two or three
 // parents whose range constraints differ, a tag list around them: the version it is moved to
 // has to be admitted by all parents, not by the parent whose edge made it "implied".
+// c17DupEntryDimension: shared-dependency worlds in which a parent lists the dependency twice
+// (finding C17:update-ignores-later-duplicate-constraint, see props/C17.json `defects`).
+const c17DupEntryDimension = true
+
 func c17ReconcileSharedDep(c *Ctx) {
 	r := c.Rng
 	s := c17RecScn{Upg: true, Down: r.Bool()}
@@ -1071,6 +1188,9 @@ func c17ReconcileSharedDep(c *Ctx) {
 		p.Deps = append(p.Deps, c17Dep{Pkg: dep, Con: rng()})
 		if i > 1 && r.Chance(1, 4) { // a present, satisfied dependency among the parents
 			p.Deps = append(p.Deps, c17Dep{Pkg: c17Repos[perm[1]], Con: ">=0.0.0"})
+		}
+		if c17DupEntryDimension && r.Chance(1, 5) { // the parent lists the dependency a second time, with another range
+			p.Deps = append(p.Deps, c17Dep{Pkg: dep, Con: rng()})
 		}
 		pkgs = append(pkgs, p)
 	}
